@@ -499,7 +499,7 @@ class GraphGen:
     def hashable_value(self, depth, pos):
         """A dictionary key (pos='key') or a set element (pos='elem')."""
         r = self.rng
-        if self.exotic and r.random() < 0.5:          # D18/D23 territory: tuples, frozensets, objects
+        if self.exotic and r.random() < 0.5:          # D18/D28 territory: tuples, frozensets, objects
             cands = [n[0] for n in self.nodes if n[1] not in SCALAR_KINDS and self.hashable[n[0]]]
             if cands and r.random() < 0.25:
                 return r.choice(cands)
